@@ -401,10 +401,22 @@ func mainSearch(t *testing.T, h Harness, out string) {
 			fmt.Fprintf(detlog, "%d %s %d\n", ds, r.LogHash(), r.Events)
 		}
 		hh := hash64(r.LogHash())
-		allHashes[hh] = struct{}{}
-		if r.Nontrivial {
-			wo.Nontrivial++
-			ntHashes[hh] = struct{}{}
+		if len(r.caseHashes) > 0 {
+			for ch, nt := range r.caseHashes {
+				allHashes[ch] = struct{}{}
+				if nt {
+					ntHashes[ch] = struct{}{}
+				}
+			}
+			if r.Nontrivial {
+				wo.Nontrivial++
+			}
+		} else {
+			allHashes[hh] = struct{}{}
+			if r.Nontrivial {
+				wo.Nontrivial++
+				ntHashes[hh] = struct{}{}
+			}
 		}
 		if len(wo.Samples) < 3 && r.Sample != nil && (r.Nontrivial || i > 8) {
 			wo.Samples = append(wo.Samples, map[string]any{"seed": ds, "case": r.Sample, "events": tail(r.Log(), 40)})
@@ -418,6 +430,17 @@ func mainSearch(t *testing.T, h Harness, out string) {
 			// confirm + minimise in-process, then write the replay file
 			rf := &ReplayFile{Property: h.Prop, Harness: h.Name, Seed: ds, Tape: append([]int(nil), r.Tape.Vals...),
 				Violation: v, LogHash: r.LogHash(), Log: r.Log(), Sample: r.Sample, Counters: r.Counters, Tier: Tier()}
+			if r.OverrideTape != nil {
+				// the harness points the replay at one sub-case: re-execute it to obtain its own log and hash
+				r2 := ExecRun(t, h, NewReplayTape(ds, r.OverrideTape))
+				for _, v2 := range r2.Viols {
+					if v2.Key() == v.Key() {
+						rf = &ReplayFile{Property: h.Prop, Harness: h.Name, Seed: ds, Tape: append([]int(nil), r2.Tape.Vals...),
+							Violation: v2, LogHash: r2.LogHash(), Log: r2.Log(), Sample: r2.Sample, Counters: r2.Counters, Tier: Tier()}
+						break
+					}
+				}
+			}
 			path := ""
 			if replayDir != "" {
 				_ = os.MkdirAll(replayDir, 0o755)
